@@ -1,4 +1,7 @@
 From Coq Require Extraction ExtrOcamlBasic.
+From Coq Require Import NArith.
 From GV Require Import Common.Outcome C09.Model C09.Run.
 Extraction Language OCaml.
-Extraction "model.ml" run_lex run_ids.
+(* N.of_nat only so that the types [positive] and [n], which the shared glue
+   ocaml/common/conv.ml mentions, exist in the extracted module *)
+Extraction "model.ml" run_lex run_ids N.of_nat.
